@@ -96,8 +96,9 @@ structure St where
   t : TSt
   deriving Repr, BEq, DecidableEq
 
-/-- `RequestHandler.flush(include_footers = fin)` with `_transforms = [GZipContentEncoding]` -/
-def hFlush (gz : Gz) (rq : Req) (s : St) (fin : Bool) : St × Bool :=
+/-- `RequestHandler.flush(include_footers = fin)` with `_transforms = [GZipContentEncoding]`, after the
+    Content-Length check -/
+def hFlushT (gz : Gz) (rq : Req) (s : St) (fin : Bool) : St × Bool :=
   let chunk := s.base.buf.flatten
   let b := { s.base with buf := [] }
   if !b.headersWritten then
@@ -115,6 +116,11 @@ def hFlush (gz : Gz) (rq : Req) (s : St) (fin : Bool) : St × Bool :=
         let (c, r) := cWrite b.conn chunk
         ({ base := { b with conn := c }, t := t }, r)
       else ({ base := b, t := t }, false)
+
+/-- `RequestHandler.flush`: while the headers are unwritten, a Content-Length that `parse_int` rejects makes
+    `flush` raise ValueError before any state is touched — before the transform runs (`C02.clValid`, fix 28dd4cc) -/
+def hFlush (gz : Gz) (rq : Req) (s : St) (fin : Bool) : St × Bool :=
+  if !s.base.headersWritten && !clValid s.base.hdrs then (s, true) else hFlushT gz rq s fin
 
 /-- `RequestHandler.finish(chunk)` -/
 def hFinish (gz : Gz) (rq : Req) (s : St) (chunk : Option Bytes) : St × Bool :=
